@@ -47,3 +47,4 @@ def run(repo, res, tier):
     _hkao.rule_arg_order(repo, res)
     # nothing after END matters: the repair hook hands END back to the production that recognises it
     _hkao.rule_hook_peek(repo, res)
+    _ap5.rule_f2c(repo, res)
